@@ -577,9 +577,18 @@ func runC19(w *vx.W) {
 	stocks := map[string]*stock{}
 
 	// check one variant; returns the generated dir
+	var checkVariantDesc func(ver string, st *stock, toggles []c19Toggle, data []byte, msgs []*wbMsg, desc string, all []c19Toggle)
 	checkVariant := func(ver string, st *stock, toggles []c19Toggle, data []byte, msgs []*wbMsg) {
+		checkVariantDesc(ver, st, toggles, data, msgs, "", nil)
+	}
+	checkVariantDesc = func(ver string, st *stock, toggles []c19Toggle, data []byte, msgs []*wbMsg, desc string, all []c19Toggle) {
 		rep := c19Replay{Workbook: ver + ".xlsx", Toggles: toggles, Form: "xlsx"}
-		desc := fmt.Sprintf("workbook %s toggles %v", ver, toggles)
+		if all != nil {
+			rep.Toggles = all
+		}
+		if desc == "" {
+			desc = fmt.Sprintf("workbook %s toggles %v", ver, toggles)
+		}
 		in := filepath.Join(scratch, fmt.Sprintf("in%d.xlsx", env.n))
 		os.WriteFile(in, data, 0o644)
 		defer os.Remove(in)
@@ -832,6 +841,111 @@ func runC19(w *vx.W) {
 					w.Sample(map[string]interface{}{"workbook": ver, "toggle": tg})
 				}
 			}
+		}
+	}
+	// ---- class toggles: every unprotected row of one type (date_time, local_date_time, string, float32, byte, bool,
+	// every array, every row with a scale, ...) disabled at once - the profiles in which a whole kind of field is gone
+	// (imports, helpers and tables that exist for that kind must go or stay consistently)
+	for _, ver := range versions {
+		st := stocks[ver]
+		if st == nil || st.skew == nil || (ver != "21.40" && !thorough) {
+			continue
+		}
+		targets := map[string]bool{}
+		for _, m := range st.msgs {
+			for _, f := range m.Fields {
+				if !f.enabled() {
+					continue
+				}
+				for _, c := range f.Comps {
+					targets[m.Name+"."+c] = true
+				}
+				for _, sb := range f.Subs {
+					if !sb.enabled() {
+						continue
+					}
+					for _, c := range sb.Comps {
+						targets[m.Name+"."+c] = true
+					}
+					for _, r := range sb.Refs {
+						targets[m.Name+"."+r] = true
+					}
+				}
+			}
+		}
+		classes := map[string]func(f *wbField) bool{}
+		typeCount := map[string]int{}
+		for _, m := range st.msgs {
+			for _, f := range m.Fields {
+				if f.enabled() {
+					typeCount[f.Type]++
+				}
+			}
+		}
+		baseTypes := map[string]bool{"date_time": true, "local_date_time": true, "string": true, "float32": true, "float64": true, "byte": true, "bool": true, "enum": true,
+			"sint8": true, "sint16": true, "sint32": true, "sint64": true, "uint8": true, "uint16": true, "uint32": true, "uint64": true, "uint8z": true, "uint16z": true, "uint32z": true, "uint64z": true}
+		for t := range typeCount {
+			tt := t
+			if baseTypes[tt] {
+				classes["type "+tt] = func(f *wbField) bool { return f.Type == tt }
+			}
+		}
+		classes["every profile-defined (enum-like) type"] = func(f *wbField) bool { return !baseTypes[f.Type] }
+		classes["every array"] = func(f *wbField) bool { return f.Array != "" }
+		classes["every non-array"] = func(f *wbField) bool { return f.Array == "" }
+		var names []string
+		for n := range classes {
+			names = append(names, n)
+		}
+		sort.Strings(names)
+		for _, cn := range names {
+			caseNo++
+			if !w.Mine(caseNo) {
+				continue
+			}
+			if w.Expired("class toggles") {
+				return
+			}
+			wb2, _ := xlsxlite.Open(st.data)
+			var tgs []c19Toggle
+			var changed []*wbField
+			for _, m := range st.msgs {
+				for _, f := range m.Fields {
+					key := m.Name + "." + f.Name
+					if !f.enabled() || !classes[cn](f) || len(f.Comps) > 0 || targets[key] || st.selected[camel(m.Name)+"Msg."+camel(f.Name)] {
+						continue
+					}
+					enabledSub := false
+					for _, sb := range f.Subs {
+						if sb.enabled() {
+							enabledSub = true
+						}
+					}
+					if enabledSub {
+						continue // a row with live subfields keeps them company (deviation 2 handles those)
+					}
+					wb2.SetNumber(wb2.Sheets[1], f.Row, colExample, "0")
+					tgs = append(tgs, c19Toggle{f.Row, "0", "disable " + key})
+					changed = append(changed, f)
+				}
+			}
+			if len(tgs) < 2 {
+				continue
+			}
+			nb, _ := wb2.Bytes()
+			old := make([]string, len(changed))
+			for i, f := range changed {
+				old[i], f.Example = f.Example, "0"
+			}
+			short := tgs
+			if len(short) > 6 {
+				short = append(append([]c19Toggle{}, tgs[:5]...), c19Toggle{0, "", fmt.Sprintf("... and %d more rows of class %q", len(tgs)-5, cn)})
+			}
+			checkVariantDesc(ver, st, short, nb, st.msgs, fmt.Sprintf("workbook %s with %d rows of class %q disabled", ver, len(tgs), cn), tgs)
+			for i, f := range changed {
+				f.Example = old[i]
+			}
+			w.Fam("class-toggles/"+ver, 1)
 		}
 	}
 	// ---- subfield rows: a dynamic field keeps its main row while one / all of its subfield rows are disabled
